@@ -444,3 +444,40 @@ Proof.
     pose proof (proj2 (pi_in_U _ _ Il _ _ Hv)) as Hk'. rewrite Hk in Hk'. subst k'. apply ES. now left.
   - apply own_heads_In in Hv. apply oget_In in Hv. pose proof (WKe _ _ Hv) as Hk'. rewrite Hk in Hk'. now subst k'.
 Qed.
+
+(* ---- whatever the bound: a merge only ever holds entries the log had, or entries of the other
+   log that carry the log's id, are allowed by its access controller, verify and carry a key ---- *)
+Theorem join_any_bound_admits_only_valid U l o size l' :
+  univ_ok U -> pinv U l -> pinv U o -> join l o false size = (l', Ok tt) ->
+  forall k v, In (k, v) (l_entries l') ->
+    In (k, v) (l_entries l) \/
+    (e_logid v = l_id l /\ entry_ok l v = true /\ In (k, v) (l_entries o) /\ ~ In k (okeys (l_entries l))).
+Proof.
+  intros UO Il Io. unfold join, join_reads.
+  destruct (N.eqb_spec (l_id l) (l_id o)) as [Hid|Hid]; cbn [negb]; [|intros H; injection H as <-; auto].
+  destruct (difference (l_entries o) (oslice (l_heads o)) l) as [ni|] eqn:D; [|discriminate].
+  destruct (forallb (entry_ok l) (oslice ni)) eqn:OK; cbn [negb]; [|discriminate].
+  fold_j_ents l ni. rewrite (pown_heads_o U l o UO Il Io Hid ni D).
+  assert (New : forall k v, In (k, v) (j_ents l ni) ->
+            In (k, v) (l_entries l) \/
+            (e_logid v = l_id l /\ entry_ok l v = true /\ In (k, v) (l_entries o) /\ ~ In k (okeys (l_entries l)))).
+  { intros k v Hin. pose proof Hin as Hin0. apply (proj2 (pj_ents_spec U l o Il Io Hid ni D)) in Hin.
+    destruct Hin as [Hin|Hin]; [now left|right].
+    destruct (pni_sound U l o Io Hid ni D _ _ Hin) as [Ho Hn]. split; [|split; [|split; assumption]].
+    - apply (pj_logid U l o Il Io Hid ni D). apply In_oslice. eauto.
+    - rewrite forallb_forall in OK. apply OK. apply In_oslice. eauto. }
+  destruct (size <? 0).
+  - intros H. injection H as <-. exact New.
+  - match goal with |- context [values ?x] => destruct (values x) as [vals|] eqn:V end; [|discriminate].
+    intros H. injection H as <-. cbn [l_entries]. intros k v Hin.
+    apply from_entries_In in Hin. destruct Hin as [Hv Hk].
+    assert (Hs : In v (oslice vals)).
+    { destruct (size <? olen vals); [now apply skipn_In in Hv|exact Hv]. }
+    apply In_oslice in Hs. destruct Hs as [k' Hs].
+    apply values_sound in V; cbn [l_entries l_heads].
+    2:{ intros a b H. now apply (pj_in_U U l o Il Io Hid ni D) in H. }
+    2:{ intros a b H. now apply (proj2 (pj_heads_spec U l o UO Il Io Hid ni D)) in H. }
+    destruct V as [_ VS]. apply VS in Hs.
+    pose proof (proj2 (pj_in_U U l o Il Io Hid ni D _ _ Hs)) as Hk'. rewrite Hk in Hk'. subst k'.
+    now apply New.
+Qed.
